@@ -246,6 +246,14 @@ class SymRatio:
 
     __radd__ = __add__
 
+    def __sub__(self, o):
+        self._exact_only("difference")
+        if isinstance(o, (int, SymInt)):
+            return SymRatio(self.n - o * self.d, self.d)
+        if isinstance(o, SymRatio) and not o.err and isinstance(self.d, int) and isinstance(o.d, int) and self.d == o.d:
+            return SymRatio(self.n - o.n, self.d)
+        raise Unsupported("ratio - %s" % type(o).__name__)
+
     def __repr__(self):
         return "<SymRatio>"
 
